@@ -259,7 +259,7 @@ def judge_run(j, ranks, ref_ranks, nprocs):
     j.compare_ref(tot, vecs_of(ref_ranks, "rhs_pre")[0], "rhs_pre_sum", 1e-11, 1e-12)
     # --- scalars: identical on all ranks, equal to serial
     tols = {"dot_u_w": (1e-11, 1e-12), "norm2_u": (1e-12, 0), "norm2sqr_w": (1e-12, 0), "max_abs_u": (0, 0), "pcgj_status_success": (0, 0),
-            "pcgj_num_iter": (0, 1.01), "pcgj_def_init": (1e-10, 0), "pcgj_def_final": (1e-3, 1e-14), "pcgj_def_iter1": (1e-8, 0),
+            "pcgj_num_iter": (0, 1.01), "pcgj_def_init": (1e-10, 0), "pcgj_def_iter1": (1e-8, 0),
             "pcgj_def_iter2": (1e-8, 0), "pcgj_def_iter3": (1e-8, 0), "pcgj_def_iter5": (1e-7, 0), "pcgj_def_iter8": (1e-6, 0),
             "pcgj_err_h0": (1e-6, 1e-9), "pcgj_err_h1": (1e-6, 1e-9), "pcgmg_status_success": (0, 0), "pcgmg_def_init": (1e-10, 0),
             "pcgmg_err_h0": (1e-6, 1e-9), "pcgmg_err_h1": (1e-6, 1e-9)}
@@ -274,6 +274,22 @@ def judge_run(j, ranks, ref_ranks, nprocs):
             continue
         if not close(vals[0], ref_sc[name], rel, ab):
             j.viol("dist." + name, "differs-from-serial", dict(distributed=vals[0], serial=ref_sc[name], nprocs=nprocs))
+    # final PCG defect: after O(100) iterations the rounding differences of the summation orders have been amplified
+    # by the Krylov recurrences, so the last defect is only comparable in magnitude; it must satisfy the stopping
+    # criterion of the run (tol_rel 1e-9 w.r.t. the initial defect, which IS compared tightly) and lie within a
+    # factor 10 of the serial one
+    vals = [s_.get("pcgj_def_final") for s_ in sc]
+    j.events += 1
+    if any(v is None for v in vals) or "pcgj_def_final" not in ref_sc:
+        j.viol("dist.pcgj_def_final", "scalar-missing", dict(values=vals))
+    elif any(v != vals[0] for v in vals):
+        j.viol("dist.pcgj_def_final", "ranks-disagree", dict(values=vals))
+    else:
+        d0 = sc[0].get("pcgj_def_init", 0.0)
+        if sc[0].get("pcgj_status_success") == 1.0 and not (vals[0] <= 1e-9 * d0 * 1.0001):
+            j.viol("dist.pcgj_def_final", "success-but-criterion-not-met", dict(distributed=vals[0], def_init=d0))
+        if not (0.1 * ref_sc["pcgj_def_final"] <= vals[0] <= 10 * ref_sc["pcgj_def_final"] or vals[0] <= 1e-300):
+            j.viol("dist.pcgj_def_final", "differs-from-serial", dict(distributed=vals[0], serial=ref_sc["pcgj_def_final"], nprocs=nprocs))
     # the u dump of the serial run covers all dofs: dot/norm of the undecomposed vector recomputed by the checker
     ref_w = vecs_of(ref_ranks, "w")[0]
     dot = math.fsum(ref_u[k] * ref_w[k] for k in ref_u)
@@ -285,12 +301,15 @@ def judge_run(j, ranks, ref_ranks, nprocs):
         j.viol("dist.norm2_u", "differs-from-recomputed", dict(distributed=sc[0].get("norm2_u"), recomputed=nrm))
 
 
-# (mesh file, finest level, coarsest level)
-MESHES = [("unit-square-quad.xml", [4, 3], 0), ("unit_circle_quad_5.xml", [2, 3], 0), ("l-shape-quad.xml", [3], 0),
-          ("square_circle_hole_quad_9.xml", [2], 0), ("unit-square-quad-aniso.xml", [3], 0)]
+# (mesh file, finest levels, coarsest level, spaces usable on it)
+MESHES = [("unit-square-quad.xml", [4, 3], 0, ["q1", "q2", "stokes"]), ("unit_circle_quad_5.xml", [2, 3], 0, ["q1", "q2", "stokes"]),
+          ("l-shape-quad.xml", [3], 0, ["q1", "q2", "stokes"]), ("square_circle_hole_quad_9.xml", [2], 0, ["q1", "q2"]),
+          ("unit-square-quad-aniso.xml", [3], 0, ["q1", "q2"]), ("unit-square-tria.xml", [3, 4], 0, ["tria1", "tria2"]),
+          ("l-shape-tria.xml", [3], 0, ["tria1", "tria2"]), ("unit-cube-hexa.xml", [2, 3], 0, ["hexa1"])]
 
 
-NESTED_MESHES = ("unit-square-quad.xml", "unit-square-quad-aniso.xml", "l-shape-quad.xml")
+NESTED_MESHES = ("unit-square-quad.xml", "unit-square-quad-aniso.xml", "l-shape-quad.xml", "unit-square-tria.xml", "l-shape-tria.xml",
+                 "unit-cube-hexa.xml")
 
 
 def level_string(rng, lmax, lmin, p, layered):
@@ -330,15 +349,21 @@ def run(pid, spec, unit, binp, tier, seed, workdir, overlay, scale):
     res = sup.empty_result()
     rng = random.Random(seed * 7919 + 13)
     env = build.sanitizer_env("mpi")
-    nconf = max(1, int((2 if tier == "quick" else 6) * scale))
-    nsched = 3 if tier == "quick" else 4
+    nconf = max(1, int((3 if tier == "quick" else 7) * scale))
+    nsched = 2 if tier == "quick" else 4
     plist_quick = [2, 3, 4, 7]
     arrival_orders = {}
     samples = []
     confs = []
     for c in range(nconf):
-        mesh, lmaxs, lmin = MESHES[0] if (c == 0 and tier == "quick") else MESHES[rng.randrange(len(MESHES))]
-        confs.append(dict(k=c, mesh=mesh, lmax=rng.choice(lmaxs), lmin=lmin, space=("q1", "stokes")[c] if c < 2 else rng.choice(["q1", "q2", "q2", "stokes"]),
+        # quick: configuration 0 = Q1 on the unit square, 1 = Stokes (blocked + tuple vectors), 2 = a triangle or hexahedral mesh
+        if tier == "quick" and c < 3:
+            mesh, lmaxs, lmin, spaces = (MESHES[0], MESHES[0], MESHES[5 + rng.randrange(3)])[c]
+            space = ("q1", "stokes", rng.choice(spaces))[c]
+        else:
+            mesh, lmaxs, lmin, spaces = MESHES[rng.randrange(len(MESHES))]
+            space = rng.choice(spaces)
+        confs.append(dict(k=c, mesh=mesh, lmax=rng.choice(lmaxs), lmin=lmin, space=space,
                           parti=rng.choice(["naive", "2level genetic naive", "genetic naive"]) if c else "2level naive",
                           data_seed=rng.randrange(1, 10 ** 6)))
     def do_conf(conf):
